@@ -222,6 +222,7 @@ type sbrCtxKey struct{}
 func (s *sbrSrv) use(ctx context.Context, what string) *sbrReq {
 	x, e := s.x, s.x.e
 	r, _ := ctx.Value(sbrCtxKey{}).(*sbrReq)
+	sbPerturbPoint("fake: " + what) // stretches the window between the hand-over and the handler's use of the runner
 	e.mu.Lock()
 	defer e.mu.Unlock()
 	x.ev++
@@ -384,6 +385,8 @@ type sbrEngine struct {
 
 	releaseAll       bool // drain / clean-up: runners no longer wait for a finish action
 	softsBeforeDrain int
+	eventCycle       bool // see sbrKnownEventCycle
+	endStateFrom     int
 	noop             int
 }
 
@@ -789,14 +792,29 @@ func (x *sbrEngine) drain() {
 	e.sched.loadedMu.Unlock()
 	e.mu.Lock()
 	defer e.mu.Unlock()
+	x.endStateFrom = len(e.viol)
+	parked := ""
+	bad := nLoaded != 0
+	for _, r := range x.reqs {
+		bad = bad || !r.served && !r.gaveUp
+	}
+	for _, i := range e.insts {
+		bad = bad || i.closes == 0
+	}
+	if bad {
+		// the state is quiescent: where the scheduler's goroutines of this bubble are parked says why
+		sig, _, _ := sbrBlockedSignature(true)
+		parked = "; goroutines parked at: " + sig
+		x.eventCycle = strings.Contains(sig, "processCompleted@chan send") && strings.Contains(sig, "processPending@chan send")
+	}
 	for _, r := range x.reqs {
 		if !r.served && !r.gaveUp {
-			e.violate("C02", "request %d (POST %s, model %d) was never answered although every load finished, every other request completed and its client is still waiting", r.sb.id, r.path, r.sb.model)
+			e.violate("C02", "request %d (POST %s, model %d) was never answered although every load finished, every other request completed and its client is still waiting%s", r.sb.id, r.path, r.sb.model, parked)
 		}
 	}
 	for _, i := range e.insts {
 		if i.closes == 0 {
-			e.violate("C02", "runner instance %d (model %d) was started but never shut down after all requests finished and all keep-alives elapsed", i.id, i.model)
+			e.violate("C02", "runner instance %d (model %d) was started but never shut down after all requests finished and all keep-alives elapsed%s", i.id, i.model, parked)
 		}
 	}
 	if nLoaded != 0 {
